@@ -368,6 +368,204 @@ Qed.
 Lemma c09_no_spontaneous : forall sk cfg (l : units), serve S code sk cfg l [] = (l, [], None).
 Proof. reflexivity. Qed.
 
+(* ------------------------------------------------------------------ C10 on the spec *)
+
+Lemma spec_keys : forall hb gate cfg l rq, u_keys S (fst (fst (spec_respond hb gate cfg l rq))) = u_keys S l.
+Proof.
+  intros. unfold spec_respond. destruct (sp_bcast hb cfg rq); cbn [fst]; [apply bcast_loop_keys|].
+  destruct (exec_on S code cfg l (rq_uid rq) rq) as [[l' [r|e]]|] eqn:E; cbn [fst]; try reflexivity;
+    apply exec_on_some in E; destruct E as (s & _ & -> & _); apply u_keys_set.
+Qed.
+
+(* not a broadcast: only the store under the addressed key can differ *)
+Lemma spec_isolation : forall hb gate cfg l rq v,
+  sp_bcast hb cfg rq = false -> v <> ctx_key code cfg (rq_uid rq) ->
+  u_get S (fst (fst (spec_respond hb gate cfg l rq))) v = u_get S l v.
+Proof.
+  intros hb gate cfg l rq v Hb Hv. unfold spec_respond. rewrite Hb.
+  destruct (exec_on S code cfg l (rq_uid rq) rq) as [[l' [r|e]]|] eqn:E; cbn [fst]; try reflexivity;
+    apply exec_on_some in E; destruct E as (s & _ & -> & _); apply u_get_set_other; exact Hv.
+Qed.
+
+(* … and that store is the addressed unit's store after request.execute *)
+Lemma spec_addressed : forall hb gate cfg l rq s,
+  sp_bcast hb cfg rq = false -> u_get S l (ctx_key code cfg (rq_uid rq)) = Some s ->
+  u_get S (fst (fst (spec_respond hb gate cfg l rq))) (ctx_key code cfg (rq_uid rq)) = Some (fst (rq_exec rq s)).
+Proof.
+  intros hb gate cfg l rq s Hb Hs. unfold spec_respond, exec_on. rewrite Hb, Hs.
+  destruct (rq_exec rq s) as [s' [r|e]]; cbn [fst]; apply u_get_set_same; congruence.
+Qed.
+
+Lemma spec_missing : forall hb gate cfg l rq,
+  sp_bcast hb cfg rq = false -> u_get S l (ctx_key code cfg (rq_uid rq)) = None ->
+  spec_respond hb gate cfg l rq = (l, if cf_ignore cfg then [] else [the_out rq (exc_of rq 11)], None).
+Proof.
+  intros hb gate cfg l rq Hb Hm. unfold spec_respond. rewrite Hb.
+  apply (proj2 (exec_on_none cfg l (rq_uid rq) rq)) in Hm. rewrite Hm. reflexivity.
+Qed.
+
+(* --- broadcast: the loop over context.slaves() *)
+
+Definition apply_all (rq : dreq) (l : units) : units := map (fun p => (fst p, fst (rq_exec rq (snd p)))) l.
+
+Definition apply_in (rq : dreq) (ks : list Z) (l : units) : units :=
+  map (fun p => if zmem (fst p) ks then (fst p, fst (rq_exec rq (snd p))) else p) l.
+
+Lemma u_set_as_map : forall (l : units) k (f : S -> S) s,
+  NoDup (u_keys S l) -> u_get S l k = Some s ->
+  u_set S l k (f s) = map (fun p => if fst p =? k then (fst p, f (snd p)) else p) l.
+Proof.
+  induction l as [|[k0 s0] t IH]; intros k f s Hnd Hg; cbn in *; [discriminate|].
+  inversion Hnd as [|? ? Hnotin Hnd']; subst.
+  destruct (k0 =? k) eqn:E.
+  - inversion Hg; subst. f_equal.
+    assert (k0 = k) by lia. subst k0.
+    clear -Hnotin. induction t as [|[k1 s1] t IH]; cbn in *; [reflexivity|].
+    destruct (k1 =? k) eqn:E1; [exfalso; apply Hnotin; left; lia|]. f_equal. apply IH. tauto.
+  - f_equal. apply IH; assumption.
+Qed.
+
+Lemma zmem_cons : forall k a t, zmem k (a :: t) = (k =? a) || zmem k t.
+Proof. reflexivity. Qed.
+
+Lemma bcast_loop_all : forall cfg (rq : dreq), cf_single cfg = false ->
+  (forall s, exists r, snd (rq_exec rq s) = Ok r) ->
+  forall ks (l : units) last, NoDup ks -> NoDup (u_keys S l) -> (forall k, In k ks -> In k (u_keys S l)) ->
+  fst (fst (bcast_loop S code cfg ks l rq last)) = apply_in rq ks l /\
+  snd (bcast_loop S code cfg ks l rq last) = None.
+Proof.
+  intros cfg rq Hsingle Hok ks. induction ks as [|k t IH]; intros l last Hnd Hndl Hin.
+  - cbn. split; [|reflexivity]. unfold apply_in. cbn. symmetry. rewrite <- (map_id l) at 2.
+    apply map_ext. intros p. reflexivity.
+  - cbn [bcast_loop]. unfold exec_on, ctx_key. rewrite Hsingle.
+    assert (Hk : u_get S l k <> None) by (apply u_get_in_keys; apply Hin; left; reflexivity).
+    destruct (u_get S l k) as [s|] eqn:Es; [|congruence].
+    destruct (Hok s) as [r Hr]. destruct (rq_exec rq s) as [s' r'] eqn:Ex. cbn in Hr. subst r'.
+    inversion Hnd as [|? ? Hnotin Hnd']; subst.
+    assert (Hset : u_set S l k s' = map (fun p => if fst p =? k then (fst p, fst (rq_exec rq (snd p))) else p) l).
+    { pose proof (u_set_as_map l k (fun x => fst (rq_exec rq x)) s Hndl Es) as P. cbn beta in P.
+      rewrite Ex in P. exact P. }
+    destruct (IH (u_set S l k s') (Some r) Hnd') as [IH1 IH2].
+    + rewrite u_keys_set. exact Hndl.
+    + intros k' Hk'. rewrite u_keys_set. apply Hin. right. exact Hk'.
+    + split; [|exact IH2]. rewrite IH1. rewrite Hset. unfold apply_in. rewrite map_map.
+      apply map_ext. intros [k1 s1]. cbn [fst snd]. rewrite zmem_cons.
+      destruct (k1 =? k) eqn:E1; cbn [fst snd orb].
+      * assert (k1 = k) by lia. subst k1.
+        assert (Hz : zmem k t = false).
+        { destruct (zmem k t) eqn:Ez; [|reflexivity]. exfalso. apply Hnotin.
+          unfold zmem in Ez. apply existsb_exists in Ez. destruct Ez as (x & Hx & Hxe). replace k with x by lia. exact Hx. }
+        rewrite Hz. reflexivity.
+      * reflexivity.
+Qed.
+
+Lemma apply_in_keys : forall rq (l : units), apply_in rq (u_keys S l) l = apply_all rq l.
+Proof.
+  intros rq l. unfold apply_in, apply_all. apply map_ext_in. intros [k s] Hin. cbn [fst snd].
+  assert (Hz : zmem k (u_keys S l) = true).
+  { unfold zmem. apply existsb_exists. exists k. split; [|lia]. unfold u_keys. apply in_map_iff. exists (k, s). tauto. }
+  rewrite Hz. reflexivity.
+Qed.
+
+(* multi-unit context, broadcast: request.execute applied exactly once to every hosted unit, nothing sent *)
+Lemma spec_broadcast : forall gate cfg l rq,
+  cf_bcast cfg = true -> rq_uid rq = 0 -> cf_single cfg = false -> NoDup (u_keys S l) ->
+  (forall s, exists r, snd (rq_exec rq s) = Ok r) ->
+  spec_respond true gate cfg l rq = (apply_all rq l, [], None).
+Proof.
+  intros gate cfg l rq Hb Hu Hs Hnd Hok. unfold spec_respond, sp_bcast. rewrite Hb, Hu. cbn [andb Z.eqb].
+  destruct (bcast_loop_all cfg rq Hs Hok (u_keys S l) l None Hnd Hnd (fun k H => H)) as [H1 _].
+  rewrite H1, apply_in_keys. reflexivity.
+Qed.
+
+(* single-context mode, broadcast: once on the one context *)
+Lemma spec_broadcast_single : forall gate cfg s rq,
+  cf_bcast cfg = true -> rq_uid rq = 0 -> cf_single cfg = true ->
+  spec_respond true gate cfg [(sc_single_key code, s)] rq = ([(sc_single_key code, fst (rq_exec rq s))], [], None).
+Proof.
+  intros gate cfg s rq Hb Hu Hs. unfold spec_respond, sp_bcast. rewrite Hb, Hu. cbn [andb Z.eqb].
+  cbn [u_keys map fst bcast_loop]. unfold exec_on, ctx_key. rewrite Hs. cbn [u_get sc_single_key code].
+  cbn [Z.eqb]. destruct (rq_exec rq s) as [s' [r|e]]; reflexivity.
+Qed.
+
+(* single-context mode: every unit id reaches the one context *)
+Lemma spec_single : forall hb gate cfg s rq,
+  cf_single cfg = true -> sp_bcast hb cfg rq = false ->
+  fst (fst (spec_respond hb gate cfg [(sc_single_key code, s)] rq)) = [(sc_single_key code, fst (rq_exec rq s))].
+Proof.
+  intros hb gate cfg s rq Hs Hb. unfold spec_respond. rewrite Hb. unfold exec_on, ctx_key. rewrite Hs.
+  cbn [u_get sc_single_key code Z.eqb]. destruct (rq_exec rq s) as [s' [r|e]]; reflexivity.
+Qed.
+
+(* ------------------------------------------------------------------ C10, stated on the generated skeletons *)
+
+Lemma c10_keys : forall sk, In sk all_fes -> forall cfg l rq,
+  u_keys S (fst (fst (respond S code sk cfg l rq))) = u_keys S l.
+Proof. intros sk H cfg l rq. rewrite (respond_spec sk H). apply spec_keys. Qed.
+
+Lemma c10_isolation : forall sk, In sk all_fes -> forall cfg l rq v,
+  cf_single cfg = false -> is_bcast sk cfg rq = false -> v <> rq_uid rq ->
+  u_get S (fst (fst (respond S code sk cfg l rq))) v = u_get S l v.
+Proof.
+  intros sk H cfg l rq v Hs Hb Hv. rewrite (respond_spec sk H). apply spec_isolation; [exact Hb|].
+  unfold ctx_key. rewrite Hs. exact Hv.
+Qed.
+
+Lemma c10_addressed : forall sk, In sk all_fes -> forall cfg l rq s,
+  cf_single cfg = false -> is_bcast sk cfg rq = false -> u_get S l (rq_uid rq) = Some s ->
+  u_get S (fst (fst (respond S code sk cfg l rq))) (rq_uid rq) = Some (fst (rq_exec rq s)).
+Proof.
+  intros sk H cfg l rq s Hs Hb Hg. rewrite (respond_spec sk H).
+  pose proof (spec_addressed (has_bcast sk) (gated sk) cfg l rq s Hb) as P. unfold ctx_key in P. rewrite Hs in P.
+  apply P. exact Hg.
+Qed.
+
+Lemma c10_missing : forall sk, In sk all_fes -> forall cfg l rq,
+  cf_single cfg = false -> is_bcast sk cfg rq = false -> u_get S l (rq_uid rq) = None ->
+  respond S code sk cfg l rq = (l, if cf_ignore cfg then [] else [the_out rq (exc_of rq 11)], None).
+Proof.
+  intros sk H cfg l rq Hs Hb Hg. rewrite (respond_spec sk H). apply spec_missing; [exact Hb|].
+  unfold ctx_key. rewrite Hs. exact Hg.
+Qed.
+
+Lemma c10_broadcast : forall sk, In sk bcast_fes -> forall cfg l rq,
+  cf_bcast cfg = true -> rq_uid rq = 0 -> cf_single cfg = false -> NoDup (u_keys S l) ->
+  (forall s, exists r, snd (rq_exec rq s) = Ok r) ->
+  respond S code sk cfg l rq = (apply_all rq l, [], None).
+Proof.
+  intros sk H cfg l rq Hb Hu Hs Hnd Hok. destruct (bcast_fes_all sk H) as (Ha & Hh & _).
+  rewrite (respond_spec sk Ha), Hh. apply spec_broadcast; assumption.
+Qed.
+
+Lemma c10_broadcast_single : forall sk, In sk bcast_fes -> forall cfg s rq,
+  cf_bcast cfg = true -> rq_uid rq = 0 -> cf_single cfg = true ->
+  respond S code sk cfg [(0, s)] rq = ([(0, fst (rq_exec rq s))], [], None).
+Proof.
+  intros sk H cfg s rq Hb Hu Hs. destruct (bcast_fes_all sk H) as (Ha & Hh & _).
+  rewrite (respond_spec sk Ha), Hh. apply (spec_broadcast_single (gated sk) cfg s rq); assumption.
+Qed.
+
+(* broadcast disabled (or a front-end without the option): unit 0 is an ordinary address *)
+Lemma c10_unit0_ordinary : forall sk cfg rq,
+  cf_bcast cfg = false \/ In sk nobcast_fes -> is_bcast sk cfg rq = false.
+Proof.
+  intros sk cfg rq [Hb|Hn]; unfold is_bcast, sp_bcast.
+  - rewrite Hb. rewrite andb_false_r. reflexivity.
+  - destruct (nobcast_fes_all sk Hn) as (_ & Hh). rewrite Hh. reflexivity.
+Qed.
+
+Lemma c10_nonzero_ordinary : forall sk cfg rq, rq_uid rq <> 0 -> is_bcast sk cfg rq = false.
+Proof.
+  intros sk cfg rq Hu. unfold is_bcast, sp_bcast. destruct (rq_uid rq =? 0) eqn:E; [lia|]. apply andb_false_r.
+Qed.
+
+Lemma c10_single : forall sk, In sk all_fes -> forall cfg s rq,
+  cf_single cfg = true -> is_bcast sk cfg rq = false ->
+  fst (fst (respond S code sk cfg [(0, s)] rq)) = [(0, fst (rq_exec rq s))].
+Proof.
+  intros sk H cfg s rq Hs Hb. rewrite (respond_spec sk H). apply (spec_single (has_bcast sk) (gated sk) cfg s rq); assumption.
+Qed.
+
 End WithStore.
 
 (* ------------------------------------------------------------------ refutations by witness *)
@@ -387,4 +585,103 @@ Proof.
                 {| rs_fc := 8; rs_respond := false; rs_code := None |}
                 eq_refl eq_refl eq_refl eq_refl).
   vm_compute in H. discriminate H.
+Qed.
+
+Definition failing_rq : dreq Z :=
+  {| rq_tid := 1; rq_uid := 0; rq_fc := 6; rq_dest := 0;
+     rq_exec := fun s => if s =? 1 then (s, Raise OtherExc)
+                         else (s + 10, Ok {| rs_fc := 6; rs_respond := true; rs_code := None |}) |}.
+
+(* a datastore failure on one unit ends the broadcast loop: later units never see the write *)
+Lemma c10_broadcast_refuted :
+  ~ (forall S sk, In sk bcast_fes -> forall cfg (l : units S) (rq : dreq S),
+     cf_bcast cfg = true -> rq_uid rq = 0 -> cf_single cfg = false -> NoDup (u_keys S l) ->
+     fst (fst (respond S code sk cfg l rq)) = apply_all S rq l).
+Proof.
+  intros H.
+  specialize (H Z sync_tcp ltac:(cbv [bcast_fes In]; tauto)
+                {| cf_single := false; cf_bcast := true; cf_ignore := false |} [(1, 1); (2, 2)] failing_rq
+                eq_refl eq_refl eq_refl).
+  assert (Hnd : NoDup (u_keys Z [(1, 1); (2, 2)])).
+  { cbn. constructor; [cbn; intros [E|[]]; discriminate E|]. constructor; [cbn; tauto|]. constructor. }
+  specialize (H Hnd). vm_compute in H. discriminate H.
+Qed.
+
+(* ------------------------------------------------------------------ the framer's unit filter *)
+
+Lemma unit_filter_spec : forall us single uid,
+  unit_filter code us single uid = single || zmem 0 us || zmem 255 us || zmem uid us.
+Proof.
+  intros. unfold unit_filter.
+  cbn [ceval code sc_unit_filter ce_single ce_units ce_uid]. destruct single; cbn [orb]; [reflexivity|].
+  destruct (zmem 0 us), (zmem 255 us); reflexivity.
+Qed.
+
+Lemma zmem_app : forall k a b, zmem k (a ++ b) = zmem k a || zmem k b.
+Proof. intros. unfold zmem. apply existsb_app. Qed.
+
+Lemma zmem_in : forall k l, In k l -> zmem k l = true.
+Proof. intros k l H. unfold zmem. apply existsb_exists. exists k. split; [exact H | lia]. Qed.
+
+Lemma c10_accepts_spec : forall sk, In sk filtered_fes -> forall cfg hosted uid,
+  accepts code sk cfg hosted uid =
+    let ul := unit_list sk cfg hosted in
+    Ok (cf_single cfg || zmem 0 ul || zmem 255 ul || zmem uid ul).
+Proof.
+  intros sk H cfg hosted uid. cbv [filtered_fes In] in H.
+  repeat (destruct H as [<- | H]; [ unfold accepts; cbn [sk_passes_units sync_tcp sync_udp sync_serial aio_tcp aio_udp tw_tcp];
+                                    rewrite unit_filter_spec; reflexivity | ]).
+  destruct H.
+Qed.
+
+Lemma c10_hosted_accepted : forall sk, In sk filtered_fes -> forall cfg hosted uid,
+  cf_single cfg = true \/ In uid hosted -> accepts code sk cfg hosted uid = Ok true.
+Proof.
+  intros sk H cfg hosted uid Hh. rewrite (c10_accepts_spec sk H). cbv zeta. f_equal.
+  destruct Hh as [Hs|Hi]; [rewrite Hs; reflexivity|].
+  assert (Hz : zmem uid (unit_list sk cfg hosted) = true).
+  { unfold unit_list. destruct (ceval _ _); [rewrite zmem_app|]; rewrite (zmem_in _ _ Hi); reflexivity. }
+  rewrite Hz. rewrite !orb_true_r. reflexivity.
+Qed.
+
+(* broadcast enabled: frames for unit 0 are handed to the server even when unit 0 is not hosted *)
+Lemma c10_broadcast_accepted : forall sk, In sk append0_fes -> forall cfg hosted,
+  cf_bcast cfg = true -> accepts code sk cfg hosted 0 = Ok true.
+Proof.
+  intros sk H cfg hosted Hb.
+  assert (Hf : In sk filtered_fes) by (cbv [append0_fes filtered_fes In] in *; tauto).
+  rewrite (c10_accepts_spec sk Hf). cbv zeta. f_equal.
+  assert (Hz : zmem 0 (unit_list sk cfg hosted) = true).
+  { cbv [append0_fes In] in H.
+    repeat (destruct H as [<- | H];
+            [ unfold unit_list; cbn [sk_append0 sync_tcp sync_serial aio_tcp aio_udp ceval mkenv ce_bcast_enable ce_units];
+              rewrite Hb; cbn [andb]; destruct (zmem 0 hosted) eqn:E; cbn [negb];
+              [ exact E | rewrite zmem_app; cbn; apply orb_true_r ] | ]).
+    destruct H. }
+  rewrite Hz. rewrite orb_true_r. reflexivity.
+Qed.
+
+(* … but not on the sync UDP handler, whose handle() lacks the append *)
+Lemma c10_broadcast_accepted_refuted :
+  ~ (forall sk, In sk bcast_fes -> forall cfg hosted, cf_bcast cfg = true -> accepts code sk cfg hosted 0 = Ok true).
+Proof.
+  intros H.
+  specialize (H sync_udp ltac:(cbv [bcast_fes In]; tauto)
+                {| cf_single := false; cf_bcast := true; cf_ignore := false |} [1] eq_refl).
+  vm_compute in H. discriminate H.
+Qed.
+
+(* the Twisted UDP entry point never reaches the framer's unit filter *)
+Lemma c10_tw_udp_dead : forall cfg hosted uid, accepts code tw_udp cfg hosted uid = Raise TypeError.
+Proof. reflexivity. Qed.
+
+(* a frame for a unit outside the list is dropped unless the list contains 0 or 255 *)
+Lemma c10_foreign_dropped : forall sk, In sk filtered_fes -> forall cfg hosted uid,
+  cf_single cfg = false ->
+  let ul := unit_list sk cfg hosted in
+  zmem 0 ul = false -> zmem 255 ul = false -> zmem uid ul = false ->
+  accepts code sk cfg hosted uid = Ok false.
+Proof.
+  intros sk H cfg hosted uid Hs ul H0 H255 Hu. rewrite (c10_accepts_spec sk H). cbv zeta.
+  fold ul. rewrite Hs, H0, H255, Hu. reflexivity.
 Qed.
